@@ -67,8 +67,9 @@ CLAIMED = {
     "C14": ("Lean 4: decide-checked theorem that the binding-power table regenerated from parser.cpp has the documented level order, "
             "left associativity and prefix/postfix placement + round-trip theorem for the Pratt core instantiated with that table + exact "
             "differential correspondence of the whole-grammar parser model (trees with positions) + render/parse round trip on the real parser",
-            "Proof obligations re-checked against the current source through the translator; the round-trip theorem is PARTIAL (Pratt "
-            "core: binary/prefix/postfix/parentheses); calls, indexing, member access, casts, statements and class members are covered by "
+            "Proof obligations re-checked against the current source through the translator; the round-trip theorem covers the Pratt "
+            "core: binary levels, prefix, postfix ++, indexing, member access, calls with at most one argument, parentheses (PARTIAL "
+            "beyond it); casts, new, measure, array literals, argument lists, statements and class members are covered by "
             "exhaustive small trees and random larger ones, rendered minimally and with redundant parentheses.",
             "Trusted: Lean kernel, table translator, harness+orchestrator. Known finding: generic-type lookahead claims  Id < ... > Id.",
             "DESIGN.md §4 C14"),
